@@ -458,21 +458,7 @@ class SiteTracer(Tracer):
         return None
 
 
-def diverges(n):
-    n = strip(n)
-    k = n.get("k")
-    if k in ("ret", "break", "continue"):
-        return True
-    if k == "block":
-        last = n.get("e")
-        if last is None and n.get("stmts"):
-            st = n["stmts"][-1]
-            last = st.get("e") if st.get("k") == "semi" else None
-        return last is not None and diverges(last)
-    if k == "try":
-        return False
-    from .symx import _panics
-    return _panics(n)
+from .trace import diverges  # noqa: E402  (shared with the plain Tracer)
 
 
 # ---------------------------------------------------------------------------
